@@ -191,7 +191,8 @@ def dispatch_clause(events, pkt_typ, msgseq, msg):
 
 # ------------------------------------------------------------------------------------------ _recv_datagram
 MSG_FRAME = ['self.bitfield_msg.bits', 'self.bitfield_msg.current_seqnum', 'self.incoming_messages', 'self.status',
-             'self.received_fragments', 'self.outgoing_messages', 'self.seq_message', 'self.stats.sent']
+             'self.received_fragments', 'self.outgoing_messages', 'self.seq_message', 'self.stats.sent',
+             'self.bitfield_frag.bits', 'self.bitfield_frag.current_seqnum']
 
 
 @contract('connection.ConnectionBase._recv_message', props=[], variant='effects')
